@@ -4,23 +4,30 @@ from session_common import *
 ID = 'C03'
 COQ_TARGETS = ['Props/Properties_C03.vo']
 PROPS_FILES = ['Props/Properties_C03.v']
-THEOREMS = ['C03_queue_discipline', 'C03_handoff_needs_success']
+THEOREMS = ['C03_queue_discipline', 'C03_handoff_needs_success', 'C03_data_needs_queue_start', 'C03_queue_not_started']
 ENGINES = [ENGINE]
 RULE = ('sessions with one to three transactions whose qmail-queue stand-in follows a plan per invocation: accept; exit code 1, 10, 11, 31, 40, 41, 53, 100, 255 '
         'after reading everything; killed by a signal after reading everything; die (exit or signal) before reading, after k message bytes, between message and '
         'envelope, after j envelope bytes; message sizes below and above the 64 KiB pipe buffer. After each failed transaction the session continues with RSET / '
         'MAIL / RCPT / DATA. For plans whose observable outcome depends on whether Qsmtpd sees EPIPE or the exit status, the closing reply is canonicalised to '
-        '"4xx or 5xx". non-trivial = a DATA was accepted by the server; distinct by case text')
+        '"4xx or 5xx". "qmail-queue cannot be started": plan entries ns / nh (the program exits at once; with qqexec=0 $QMAILQUEUE is not executable and the child ends in _exit(120)) '
+        'with the schedule of queue_init()\'s waitpid(WNOHANG) forced by the harness to "sees the dead child" (451 to DATA, no 354) resp. "misses it" (354, EPIPE at the Received: header); '
+        'DATA repeated inside the same transaction after such a refusal, payloads starting with the dot, an empty line or a read error. non-trivial = a DATA was accepted by the server; distinct by case text')
 TRUSTED_BASE = TRUSTED_COMMON
 ASSUMPTIONS = ASSUMPTIONS_COMMON + [
     'abstract fault model: the k-th qmail-queue invocation either reads everything and exits 0 / exits non-zero / is killed, or dies early so that a write fails; '
-    'EPIPE delivery with SIGPIPE blocked, the WNOHANG race in queue_init and waitpid decoding are exercised by the harness, not proved',
+    'EPIPE delivery with SIGPIPE blocked and waitpid decoding are exercised by the harness, not proved; whether queue_init()\'s waitpid(WNOHANG) sees a child that dies '
+    'at once is a race between two processes: the model has both outcomes (QQ_nostart / QQ_die_hdr, chosen by the oracle), the harness forces one per invocation '
+    '(harness/session/wraps.c: __wrap_waitpid waits for the child\'s exit with WNOWAIT and then asks for real or answers 0); pipe() / fork() failure gives the same '
+    'reply and return value as the seen death and is the same oracle outcome (QQ_nostart), it is not produced in the runs',
 ]
 LEVEL_TEXT = ('Coq theorem for all oracles (in particular all qmail-queue behaviours per invocation) and all client byte streams: between the 354 and the end of the '
               'transaction nothing else is sent, a hand-off and the closing 250 occur only for an invocation that read everything and exited 0, every other '
               'outcome ends in 4xx/5xx, and in both cases sender and recipients are discarded (so a following transaction starts empty: C08). '
+              'If qmail-queue cannot be started (queue_init() fails) DATA gets no 354 at all (C03_data_needs_queue_start) but 451, with nothing else changed (C03_queue_not_started); '
+              'if it dies between queue_init() and the first write, that is one more early death behind the 354. '
               'Tied to the binary by whole-program runs with a fault-injecting qmail-queue stand-in.')
-LEVEL_NOTE = 'Partial for the runtime: which of EPIPE / exit status Qsmtpd observes for an early death is decided by the kernel; the model merges both into "not 2xx".'
+LEVEL_NOTE = 'Deviation from the wording: when queue_init() fails the transaction is NOT discarded (DATA is refused with 451 before anything was sent, sender and recipients stay, DATA may be repeated); stated as it is in C03_queue_not_started. Partial for the runtime: which of EPIPE / exit status Qsmtpd observes for an early death is decided by the kernel; the model merges both into "not 2xx".'
 TECHNIQUE = 'Coq proof of a queue-discipline state machine over the session trace (part of the simulation); fault-injecting qmail-queue stand-in in the whole-program differential run'
 DESIGN_REF = 'DESIGN.md section 5, C03'
 
@@ -28,7 +35,10 @@ PLANS = ['ok', 'ok', 'exit:1', 'exit:10', 'exit:11', 'exit:31', 'exit:40', 'exit
          'die:b:0:sig', 'die:b:0:1', 'die:m:5:sig', 'die:m:150:2', 'die:e:0:sig', 'die:e:3:1', 'die:e:1:sig',
          # exiting with status 0 without having read everything must not count as success either
          # (the envelope descriptor is closed at once, so that the server's write fails for sure)
-         'ce:0', 'ce:0', 'ce:1', 'ce:31', 'ce:sig']
+         'ce:0', 'ce:0', 'ce:1', 'ce:31', 'ce:sig',
+         # the queue program is gone at once: seen by queue_init()'s waitpid(WNOHANG) (no 354, "451 4.3.2 can not connect to queue") or
+         # missed by it (354, EPIPE already at the Received: header) - the schedule is forced by harness/session/wraps.c
+         'ns', 'ns', 'nh', 'nh']
 # die:m:<n> only takes effect when the message has at least n octets: n <= 150 is below the size of the trace header alone;
 # the variant beyond the pipe buffer is used only in sessions whose messages are all larger than that
 BIG_PLANS = ['die:m:70000:sig', 'die:m:70000:1', 'die:m:66000:2', 'ok', 'exit:31', 'die:a:0:sig']
@@ -55,4 +65,22 @@ def gen_cases(engine, rng, tier):
             if rng.random() < 0.5:
                 chunks.append(b'RSET\r\n')
         out.append(session_gen.case('relay=none;ip=v4;databytes=0;qq=' + ','.join(plan), chunks))
+    # "If qmail-queue cannot be started": DATA repeated inside the same transaction after a refusal, with and without RSET in
+    # between, payloads whose first line is the dot / empty / a read error (the drain of err_write starts with the command line);
+    # $QMAILQUEUE not executable at all (every invocation ends in _exit(120))
+    for _ in range(n // 3):
+        noexec = rng.random() < 0.3
+        plan = [rng.choice(['ns', 'nh'] if noexec else ['ns', 'ns', 'nh', 'nh', 'ok', 'ok', 'exit:31', 'die:b:0:1']) for _ in range(5)]
+        chunks = [rng.choice([b'HELO c.example.net\r\n', b'EHLO c.example.net\r\n'])]
+        for _ in range(rng.choice([1, 2])):
+            chunks.append(session_gen.mail(rng, rng.choice(['ok', 'ok', 'bounce'])))
+            for _ in range(rng.choice([1, 2])):
+                chunks.append(session_gen.rcpt(rng, rng.choice(['ok', 'ok', 'no'])))
+            for _ in range(rng.choice([1, 2, 3])):
+                chunks.append(b'DATA\r\n')
+                chunks.append(rng.choice([b'Subject: t\r\n\r\nbody\r\n.\r\n', b'.\r\n', b'\r\n.\r\n', b'a\rb\r\nx\r\n.\r\n', b'bare\nlf\r\n.\r\n',
+                                          b'Subject: t\r\n\r\n' + b'y' * 70 + b'\r\n.\r\n']))
+                if rng.random() < 0.3: chunks.append(rng.choice([b'RSET\r\n', b'NOOP\r\n', session_gen.rcpt(rng, 'ok')]))
+        cfg = 'relay=none;ip=v4;databytes=0;qq=' + ','.join(plan) + (';qqexec=0' if noexec else '')
+        out.append(session_gen.case(cfg, chunks))
     return out + session_gen.gen(rng, 150 if tier == 'quick' else 3000)
